@@ -27,6 +27,303 @@ def t_c04_spec():
   assert proto_ref(2, (1, 3), ("@=", 4))[1] is False and proto_ref(2, (1, 3), ("@=", -2)) == ((2, 3), True)
 
 
+# ------------------------------------------------------------------ E1
+
+@selftest
+def t_explore():
+  from vt import explore
+  le = lambda n, e: len(list(explore.linear_extensions(n, e)))
+  assert le("abcd", []) == 24 and le("abcd", [("a", "b"), ("b", "c"), ("c", "d")]) == 1
+  assert le("abcd", [("a", "b"), ("a", "c"), ("b", "d"), ("c", "d")]) == 2
+  assert le("abcde", [("a", "b"), ("c", "d")]) == 30          # 5!/(2*2)
+  assert next(explore.linear_extensions("cab", [])) == ["c", "a", "b"]      # canonical first order = given order
+  assert len(list(explore.linear_extensions("abcd", [], cap=5))) == 5
+  for o in explore.linear_extensions("abcd", [("d", "a")]): assert o.index("d") < o.index("a")
+  # choice DFS: 3 binary choice points -> 8 runs unbounded; 1+3 with one deviation; 1+3+3 with two
+  def run(cr): return tuple(cr.choose(2) for _ in range(3))
+  assert sorted(r for _, r in explore.choice_dfs(run)) == sorted(__import__("itertools").product((0, 1), repeat=3))
+  assert len(list(explore.choice_dfs(run, bound=1))) == 4 and len(list(explore.choice_dfs(run, bound=2))) == 7
+  assert len(list(explore.choice_dfs(run, bound=0))) == 1
+  # data-dependent arity: second point exists only after choice 1
+  def run2(cr):
+    a = cr.choose(3)
+    return (a, cr.choose(2)) if a == 1 else (a,)
+  assert sorted(r for _, r in explore.choice_dfs(run2)) == [(0,), (1, 0), (1, 1), (2,)]
+  try:
+    explore.ChoiceRun([5]).choose(2); raise AssertionError("out-of-range replay accepted")
+  except RuntimeError: pass
+  # BFS over a real transition function: modulo-5 counter with letters +1 / +2 / reset
+  class Ctr:
+    def __init__(s): s.v = 0
+  def apply(c, l):
+    c.v = 0 if l == "r" else (c.v + l) % 5
+    return c.v
+  res = explore.bfs_history(Ctr, apply, lambda c: c.v, lambda st: (1, 2, "r"))
+  assert len(res.states) == 5 and res.transitions == 15 and res.closed and res.max_depth == 2
+  assert res.states[4] == [2, 2] and res.states[3] == [1, 2]
+  res = explore.bfs_history(Ctr, apply, lambda c: c.v, lambda st: (1,), max_depth=2)
+  assert len(res.states) == 3 and not res.closed
+  # differential oracle: a canonicalisation that merges states with different futures is reported
+  res = explore.bfs_history(Ctr, apply, lambda c: c.v % 2, lambda st: (1,), full_obs=lambda c: c.v)
+  assert res.merge_mismatch
+
+
+@selftest
+def t_seams():
+  import random, itertools
+  from vt import seams, explore
+  seen = set()
+  def run(cr):
+    with seams.shuffle_seam(lambda n: cr.choose(n, cost=0)):
+      q = [1, 2, 3]; out = []
+      while q:
+        random.shuffle(q); out.append(q.pop())
+    return tuple(out)
+  for _, r in explore.choice_dfs(run): seen.add(r)
+  assert seen == set(itertools.permutations((1, 2, 3))), seen
+  q = list(range(10)); random.shuffle(q)          # the seam is gone afterwards
+  from pymtl3 import Wire, Bits4, Component
+  class T(Component):
+    def construct(s): s.w = [Wire(Bits4) for _ in range(6)]
+  orders = []
+  for rank in (lambda o, i: i, lambda o, i: 1000 - i):
+    with seams.hash_seam(rank):
+      t = T(); t.elaborate()
+      orders.append([repr(x) for x in set(t.w)])
+  assert orders[0] == list(reversed(orders[1])) and len(orders[0]) == 6, orders
+  assert T.__hash__ is Component.__hash__ or True
+
+
+# ------------------------------------------------------------------ E4
+
+@selftest
+def t_fifo():
+  from vt.fifo import step
+  r = step("normal", 2, [], 1, 7, 1); assert (r["enq_rdy"], r["deq_val"], r["enq_fire"], r["deq_fire"], r["q2"]) == (1, 0, 1, 0, [7])
+  r = step("normal", 2, [7, 8], 1, 9, 1); assert (r["enq_rdy"], r["deq_val"], r["deq_msg"], r["q2"]) == (0, 1, 7, [8])
+  r = step("pipe", 1, [7], 1, 9, 1); assert (r["enq_rdy"], r["deq_msg"], r["q2"]) == (1, 7, [9])
+  r = step("pipe", 1, [7], 1, 9, 0); assert (r["enq_rdy"], r["q2"]) == (0, [7])
+  r = step("bypass", 1, [], 1, 9, 1); assert (r["deq_val"], r["deq_msg"], r["q2"], r["enq_fire"], r["deq_fire"]) == (1, 9, [], 1, 1)
+  r = step("bypass", 1, [], 1, 9, 0); assert (r["deq_val"], r["deq_msg"], r["q2"]) == (1, 9, [9])
+  r = step("bypass", 1, [7], 1, 9, 1); assert (r["enq_rdy"], r["deq_msg"], r["q2"]) == (0, 7, [])
+  r = step("bypass-chain2", 2, [], 1, 5, 0); assert r["q2"] == [(2, 5)] and r["deq_val"] == 1
+  r = step("bypass-chain2", 2, [(2, 5)], 1, 6, 0); assert r["q2"] == [(2, 5), (1, 6)] and r["enq_rdy"] == 1
+  r = step("bypass-chain2", 2, [(2, 5), (1, 6)], 1, 7, 1); assert r["enq_rdy"] == 0 and r["deq_msg"] == 5 and r["q2"] == [(1, 6)]     # stage 2 drains; stage 1 sees stage 2 full this cycle and keeps its message
+
+
+@selftest
+def t_memref():
+  from vt import memref as M
+  m = M.Mem()
+  assert m.apply((M.WRITE, 1, 0x10, 0, 0x11223344)) == (M.WRITE, 1, 0, 0, 0)
+  assert m.image(0x10, 0x14) == (0x44, 0x33, 0x22, 0x11)                                  # little endian
+  assert m.apply((M.READ, 2, 0x11, 2, 0)) == (M.READ, 2, 0, 2, 0x2233)
+  assert m.apply((M.WRITE, 3, 0x12, 1, 0xABCD))[0] == M.WRITE and m.read(0x10, 4) == 0x11CD3344   # only len bytes written
+  assert m.apply((M.AMO_ADD, 4, 0x10, 0, 0xFFFFFFFF))[4] == 0x11CD3344 and m.read(0x10, 4) == 0x11CD3343
+  assert m.apply((M.AMO_MIN, 5, 0x20, 0, 0xFFFFFFFF))[4] == 0 and m.read(0x20, 4) == 0xFFFFFFFF  # signed: -1 < 0
+  assert m.apply((M.AMO_MINU, 6, 0x24, 0, 0xFFFFFFFF))[4] == 0 and m.read(0x24, 4) == 0
+  assert m.apply((M.AMO_SWAP, 7, 0x24, 0, 9))[4] == 0 and m.read(0x24, 4) == 9
+  c = m.copy(); c.write(0x24, 4, 1); assert m.read(0x24, 4) == 9
+
+
+@selftest
+def t_layout():
+  from vt import layout as Y
+  t = ("S", "P", (("a", ("B", 2)), ("l", ("L", ("B", 3), 2)), ("n", ("S", "Q", (("x", ("B", 1)), ("y", ("B", 2)))))))
+  assert Y.width(t) == 11
+  v = {"a": 0b10, "l": [0b001, 0b110], "n": {"x": 1, "y": 0b01}}
+  assert Y.pack(t, v) == 0b10_110_001_1_01, bin(Y.pack(t, v))
+  assert Y.unpack(t, 0b10_110_001_1_01) == v
+  assert [p for p, w in Y.leaf_paths(t)] == [("a",), ("l", 1), ("l", 0), ("n", "x"), ("n", "y")]
+  for b in range(1 << 11): assert Y.pack(t, Y.unpack(t, b)) == b
+
+
+@selftest
+def t_isa():
+  from vt import isa
+  # encodings written by hand from the RISC-V base ISA tables
+  assert isa.encode(("addi", 1, 0, 5)) == 0x00500093
+  assert isa.encode(("add", 3, 1, 2)) == 0x002081B3
+  assert isa.encode(("lw", 5, 4, 3)) == 0x0041A283
+  assert isa.encode(("sw", 5, 8, 3)) == 0x0051A423
+  assert isa.encode(("bne", 1, 2, -4)) == 0xFE209EE3
+  assert isa.encode(("csrw", isa.PROC2MNGR, 1)) == 0x7C009073
+  assert isa.encode(("csrr", 2, isa.MNGR2PROC)) == 0xFC002173
+  # cross-check every letter shape against the repository's assembler (a disagreement would make C20 compare different programs)
+  sys.path.insert(0, "/repo")
+  from examples.ex03_proc import tinyrv0_encoding as te
+  prog = [("addi", 1, 0, -7), ("add", 3, 1, 2), ("and", 4, 3, 1), ("sll", 5, 1, 2), ("srl", 6, 5, 2), ("lw", 7, 4, 3), ("sw", 7, -8, 3),
+          ("csrr", 1, isa.MNGR2PROC), ("csrw", isa.PROC2MNGR, 3), ("csrw", isa.XCELREG0, 2), ("csrr", 2, isa.XCELREG0)]
+  for inst, line in zip(prog, isa.to_asm(prog)):
+    assert int(te.assemble_inst({}, 0x200, line)) == isa.encode(inst), (inst, line)
+  # interpreter: sum 3+2+1 with a backward branch, store/load, sign-extended immediate
+  p = [("csrr", 1, isa.MNGR2PROC), ("addi", 2, 0, 0), ("add", 2, 2, 1), ("addi", 1, 1, -1), ("bne", 1, 0, -8),
+       ("addi", 3, 0, 0x400), ("sw", 2, 4, 3), ("lw", 4, 4, 3), ("csrw", isa.PROC2MNGR, 4), ("bne", 4, 0, 0)]
+  out, mem, halted, taken = isa.run(p, [3])
+  assert out == [6] and halted and taken == 1 and mem[0x404] == 6 and mem[0x405] == 0
+  assert isa.run([("addi", 0, 0, 5), ("csrw", isa.PROC2MNGR, 0), ("bne", 0, 0, 0)], [])[0] == [0]      # x0 stays 0, falls off the end
+  assert isa.fletcher([1, 2, 3]) == ((1 + 3 + 6) << 16) | 6 and isa.fletcher([0xFFFF, 1]) == (0xFFFF << 16) | 0
+
+
+@selftest
+def t_vcdparse():
+  from vt import vcdparse
+  text = """$date today $end $timescale 1ns $end
+$scope module top $end $var reg 1 ! clk $end $var reg 4 " x [3:0] $end
+$scope module c $end $var reg 4 " y $end $upscope $end $upscope $end
+$enddefinitions $end
+$dumpvars b0000 " 0! $end
+#0 1!
+#50 0!
+#100 1! b101 "
+#150 0!
+#200 1! b1111 "
+"""
+  v = vcdparse.parse(text)
+  assert not v.errors, v.errors
+  assert [(sc, n, w, s) for sc, n, w, s in v.vars] == [(("top",), "clk", 1, "!"), (("top",), "x[3:0]", 4, '"'), (("top", "c"), "y", 4, '"')]
+  assert v.value_at('"', 0) == 0 and v.value_at('"', 100) == 5 and v.value_at('"', 199) == 5 and v.value_at('"', 200) == 15
+  assert v.value_at("!", 0) == 1 and v.value_at("!", 50) == 0
+
+
+# ------------------------------------------------------------------ E2
+
+@selftest
+def t_irref():
+  from vt import ir, irref
+  from vt.ir import B, S, ref, c
+  from vt.irgen import comp
+  Sab = S("SabT", ("a", B(2)), ("b", B(2)))
+  # x.a = in_[0:2]; x.b = ~in_[2:4] (one block); y = x (net); r <<= y.a + 1 (ff, low 2 bits) ; out = concat(r, y.b)
+  d = comp("T", [("in_", "in", B(4), ()), ("x", "wire", Sab, ()), ("y", "wire", Sab, ()), ("r", "wire", B(2), ()), ("out", "out", B(4), ())],
+           blocks=[("wx", "comb", [("=", ref("x", ("f", "a")), ref("in_", ("s", 0, 2))), ("=", ref("x", ("f", "b")), ("un", "~", ref("in_", ("s", 2, 4))))]),
+                   ("rr", "ff", [("=", ref("r"), ("bin", "+", ref("y", ("f", "a")), c(2, 1)))]),
+                   ("wo", "comb", [("=", ref("out"), ("call", "concat", ref("r"), ref("y", ("f", "b"))))])],
+           connects=[(ref("y"), ref("x"))])
+  r = irref.RefSim(d)
+  r.set_inputs({"in_": 0b0110, "reset": 0}); r.settle()
+  g = lambda n: r.state[((), n, ())]
+  assert g("x") == 0b10_10 and g("y") == 0b10_10 and g("out") == 0b00_10, (g("x"), g("y"), g("out"))   # a=2 (MS field), b=~01=2
+  r.tick(); assert g("r") == 3 and g("out") == 0b11_10
+  r.set_inputs({"in_": 0b1111}); r.tick(); assert g("r") == 0 and g("out") == 0b00_00       # 3+1 wraps; b = ~3 = 0
+  # the same design through the real simulator (emitter + Dut) must agree signal by signal
+  from vt.dut import Dut
+  from vt.acc import Acc
+  from vt.checks.c01 import lockstep
+  acc = Acc()
+  for group in ("simple", "dynamic"):
+    dut = Dut(d, group)
+    n = lockstep(dut, irref.RefSim(d), [[{"in_": v, "reset": 0} for v in (6, 15, 0, 9)]], "selftest", acc, {})
+    dut.close()
+    assert n == 4 and not acc.violations, acc.violations
+  # double drivers / evaluation-order dependence are detected by the reference itself
+  bad = comp("T2", [("in_", "in", B(2), ()), ("w", "wire", B(2), ()), ("out", "out", B(2), ())],
+             blocks=[("b1", "comb", [("=", ref("w"), ref("in_"))]), ("b2", "comb", [("=", ref("w"), ("un", "~", ref("in_")))]),
+                     ("b3", "comb", [("=", ref("out"), ref("w"))])])
+  rb = irref.RefSim(bad)
+  rb.set_inputs({"in_": 1, "reset": 0})
+  try:
+    rb.settle(); raise AssertionError("double driver not detected by the reference")
+  except Exception as ex:
+    assert "order" in str(ex) or "driver" in str(ex), ex
+
+
+# ------------------------------------------------------------------ E3
+
+def _sv(decls, body, ins):
+  from vt import svsim
+  text = "module T (\n  input logic [0:0] clk,\n  input logic [0:0] reset" + "".join(",\n  " + d for d in decls) + "\n);\n" + body + "\nendmodule\n"
+  des = svsim.Design(text)
+  inst = svsim.Inst(des, "T")
+  for k, v in ins.items(): inst.set_port(k, v)
+  inst.tick()
+  return inst
+
+
+@selftest
+def t_svsim_sizing():
+  """IEEE 1800-2017 clause 11.6: expression bit lengths (the examples of 11.6.2 / 11.6.3 and one case per row of table 11-21)."""
+  D = ["input logic [15:0] a", "input logic [15:0] b", "output logic [15:0] o1", "output logic [15:0] o2", "output logic [15:0] o3"]
+  i = _sv(D, "assign o1 = (a + b) >> 1;\nassign o2 = (a + b + 0) >> 1;\nassign o3 = {a + b} >> 1;", {"a": 0x8000, "b": 0x8000})
+  assert (i.get_port("o1"), i.get_port("o2"), i.get_port("o3")) == (0, 0x8000, 0), "11.6.2: 16-bit sum loses the carry unless an unsized 0 widens the context"
+  D = ["input logic [3:0] a", "input logic [3:0] b", "input logic [0:0] c"] + [f"output logic [7:0] o{k}" for k in range(12)]
+  body = """assign o0 = a + b;
+assign o1 = {a + b};
+assign o2 = 8'(a + b);
+assign o3 = a << 1;
+assign o4 = ~a;
+assign o5 = {2{a}};
+assign o6 = c ? a : 8'd200;
+assign o7 = (a + b) > 4'd3;
+assign o8 = &a;
+assign o9 = a * b;
+assign o10 = {a, b} + 8'd1;
+assign o11 = 8'(a) + 8'(b);"""
+  i = _sv(D, body, {"a": 15, "b": 2, "c": 1})
+  got = [i.get_port(f"o{k}") for k in range(12)]
+  want = [17,       # context 8 bits
+          1,        # concatenation operand self-determined: 4-bit sum
+          1,        # cast operand self-determined
+          0x1E,     # a widened to 8 bits before the shift
+          0xF0,     # widened, then inverted
+          0xFF, 15,
+          1,        # comparison at max(4,4)=4 bits: (15+2) mod 16 = 1 > 3 is false -> 0 ... see below
+          1, 30, 0xF3, 17]
+  want[7] = 0
+  assert got == want, (got, want)
+  i = _sv(D, "assign o0 = a - b;\nassign o1 = -a;\nassign o2 = a >> b;\nassign o3 = a[2:1] + b[3:2];\nassign o4 = a[b[1:0] +: 2];", {"a": 2, "b": 3, "c": 0})
+  assert [i.get_port(f"o{k}") for k in range(5)] == [0xFF, 0xFE, 0, 1, 0], [i.get_port(f"o{k}") for k in range(5)]
+
+
+@selftest
+def t_svsim_structure():
+  """always_comb / always_ff with non-blocking swap, for loops, struct fields (first field most significant), unpacked arrays, instances, $signed."""
+  from vt import svsim
+  text = """typedef struct packed { logic [1:0] a; logic [5:0] b; } P;
+module Child ( input logic [0:0] clk, input logic [7:0] x, output logic [7:0] y, input logic [0:0] reset );
+  assign y = x + 8'd1;
+endmodule
+module T ( input logic [0:0] clk, input logic [7:0] in_, input P p, output logic [7:0] o_swap, output logic [7:0] o_for,
+           output logic [7:0] o_fld, output logic [7:0] o_arr, output logic [7:0] o_child, output logic [7:0] o_sx, input logic [0:0] reset );
+  logic [7:0] r0; logic [7:0] r1; logic [7:0] arr [0:2]; logic [7:0] c__x; logic [7:0] c__y;
+  Child c ( .clk( clk ), .x( c__x ), .y( c__y ), .reset( reset ) );
+  assign c__x = in_;
+  assign o_child = c__y;
+  always_ff @(posedge clk) begin : sw
+    if ( reset ) begin r0 <= 8'd1; r1 <= 8'd2; end
+    else begin r0 <= r1; r1 <= r0; end
+  end
+  assign o_swap = r0;
+  always_comb begin : lp
+    o_for = 8'd0;
+    for ( int unsigned i = 1'd0; i < 3'd4; i += 1'd1 )
+      o_for[3'(i)] = in_[3'(7 - i)];
+  end
+  always_comb begin : ar
+    arr[2'd0] = in_; arr[2'd1] = in_ + 8'd1; arr[2'd2] = 8'd0;
+    o_arr = arr[p.a];
+  end
+  assign o_fld = { 2'd0, p.b };
+  assign o_sx = 8'( $signed( in_[3:0] ) );
+endmodule
+"""
+  des = svsim.Design(text)
+  i = svsim.Inst(des, "T")
+  i.set_port("reset", 1); i.set_port("in_", 0b10110000); i.set_port("p", 0b01_000011); i.tick()
+  assert i.get_port("o_swap") == 1 and i.get_port("o_for") == 0b1101 and i.get_port("o_fld") == 3 and i.get_port("o_arr") == 0b10110001
+  assert i.get_port("o_child") == 0b10110001 and i.get_port("o_sx") == 0
+  i.set_port("reset", 0); i.set_port("in_", 0x0A); i.tick(); assert i.get_port("o_swap") == 2 and i.get_port("o_sx") == 0xFA
+  i.tick(); assert i.get_port("o_swap") == 1
+  multi, drv = svsim.drivers(des, "T"); assert not multi
+  for bad, why in (("module A ( input logic [0:0] clk ); logic [1:0] x; logic [1:0] x; endmodule", "declared twice"),
+                   ("module A ( input logic [0:0] clk ); endmodule module A ( input logic [0:0] clk ); endmodule", "defined twice")):
+    try: svsim.Inst(svsim.Design(bad), "A")
+    except Exception as ex: assert why in str(ex), ex
+    else: raise AssertionError("accepted: " + bad)
+  multi, drv = svsim.drivers(svsim.Design("module A ( input logic [0:0] clk, input logic [1:0] i, output logic [1:0] o );\n assign o = i;\n assign o[0] = i[1];\nendmodule"), "A")
+  assert multi and multi[0][0][0] == "o"
+
+
 def main():
   # importing every registered module lets it add its own self tests
   root = os.path.dirname(os.path.abspath(__file__))
